@@ -205,3 +205,67 @@ Example ex_ctx_alt_rejects :
   ~ ctx_alt 0 false [ECbBegin 0 (0, 0); ECbBegin 0 (1, 1)] /\
   ctx_alt 0 false [ECbBegin 0 (0, 0); ECbBegin 1 (1, 1); ECbEnd 0 (0, 100) 0%Z; ECbBegin 0 (2, 2)].
 Proof. split; simpl; [intros [_ [H _]]; discriminate|auto]. Qed.
+
+(* ==== Ownership of work items: the client contract of submit (strengthening, session 3) ==== *)
+(* submit transfers an item to the pool exactly when it returns 0.  A refused submit (a worker failed
+   before) leaves everything the pool holds untouched: the item stays with the caller, who must dispose
+   of it exactly once (lib/sqfs/src/block_processor/frontend.c:enqueue_block puts it on the free list,
+   so its callers have to forget their pointer whatever enqueue_block returns: the logic seeded change
+   C09-4 broke; the block processor's side is checked on the implementation by props/C09/h_bpfail.c). *)
+From SqfsV Require Import C09.PoolOwnership.
+
+Section OwnershipStatements.
+Variable cb_val : nat -> nat.
+Variable cb_st : nat -> Z.
+
+(* after a refused submit the pool owns exactly what it owned before; nothing was accepted *)
+Theorem pool_submit_refused_not_owned : forall fx s d s' e,
+  step cb_val cb_st fx s (LCall (OSubmit d)) = Some (s', e) -> status s <> 0%Z ->
+  e = ERet (OSubmit d) (RStatus (status s)) /\ accepted1 e = [] /\ refused1 e = [d] /\
+  owned s' = owned s /\ tickets s' = tickets s /\ next_ticket s' = next_ticket s /\
+  item_count s' = item_count s /\ g_sub s' = g_sub s /\ g_ret s' = g_ret s.
+Proof. exact (submit_refused_not_owned cb_val cb_st). Qed.
+
+(* an accepted submit: the pool owns one more ticket, the new one *)
+Theorem pool_submit_accepted_owned : forall fx s d s' e,
+  step cb_val cb_st fx s (LCall (OSubmit d)) = Some (s', e) -> status s = 0%Z ->
+  e = ERet (OSubmit d) (RStatus 0%Z) /\ accepted1 e = [d] /\ refused1 e = [] /\
+  owned s' = owned s ++ [next_ticket s] /\ next_ticket s' = S (next_ticket s) /\
+  item_count s' = S (item_count s) /\ g_sub s' = g_sub s ++ [d] /\ g_ret s' = g_ret s.
+Proof. exact (submit_accepted_owned cb_val cb_st). Qed.
+
+(* for every run: the accepted submissions are exactly the items of the submit calls that returned 0,
+   what was handed back is exactly what dequeue returned ... *)
+Theorem pool_accepts_exactly : forall fx n ls s es,
+  run cb_val cb_st fx (init n) ls = Some (s, es) -> g_sub s = accepted es /\ g_ret s = returned es.
+Proof. exact (accepts_exactly cb_val cb_st). Qed.
+
+(* ... everything dequeue hands back is f of an accepted item, in order: a refused item never comes back ... *)
+Theorem pool_returned_are_accepted : forall fx n ls s es,
+  run cb_val cb_st fx (init n) ls = Some (s, es) ->
+  returned es = map cb_val (firstn (length (returned es)) (accepted es)).
+Proof. exact (returned_are_accepted cb_val cb_st). Qed.
+
+(* ... and the pool owns exactly the accepted, not yet returned tickets, each once, item_count many *)
+Theorem pool_owned_are_accepted_minus_returned : forall fx n ls s es,
+  run cb_val cb_st fx (init n) ls = Some (s, es) ->
+  Permutation (owned s) (seq (length (returned es)) (length (accepted es) - length (returned es))) /\
+  item_count s + length (returned es) = length (accepted es) /\ length (owned s) = item_count s.
+Proof. exact (owned_are_accepted_minus_returned cb_val cb_st). Qed.
+
+End OwnershipStatements.
+
+Print Assumptions pool_submit_refused_not_owned.
+Print Assumptions pool_submit_accepted_owned.
+Print Assumptions pool_accepts_exactly.
+Print Assumptions pool_returned_are_accepted.
+Print Assumptions pool_owned_are_accepted_minus_returned.
+
+(* non-vacuity: 1 worker, items 0 and 1 accepted, the callback fails on item 0 (status 5), item 2 is
+   refused; item 0 comes back, the pool is destroyed with ticket 1 inside: the refused item is neither
+   accepted, nor owned, nor returned *)
+Example ex_submit_refused :
+  exists s es, run (fun d => 100 + d) (fun d => if d =? 0 then 5%Z else 0%Z) true (init 1) own_schedule = Some (s, es) /\
+    accepted es = [0; 1] /\ refused es = [2] /\ returned es = [100] /\ owned s = [1] /\ item_count s = 1 /\
+    status s = (-1)%Z.
+Proof. exact ex_refused_not_owned. Qed.
